@@ -256,6 +256,9 @@ RULES = {
   L('add_inner_loop', 'src/rculfhash.c', '_cds_lfht_add', 'for', 2, 'lfht_add', count=2),
   L('gc_inner_loop', 'src/rculfhash.c', '_cds_lfht_gc_bucket', 'for', 2, 'lfht_gc', count=2),
  ],
+ 'lfht_api': [
+  L('add_replace_loop', 'src/rculfhash.c', 'cds_lfht_add_replace', 'for', 1, 'lfht_add_replace', count=1),
+ ],
  'lfht_destroy': [
   # plain read of a chain node's next word -> identity macro by default (adds no executable token), load hook in the harness
   {'id': 'delete_bucket_plain_load', 'file': 'src/rculfhash.c', 'kind': 'regex', 'pattern': r'^(\t\tnode = )clear_flag\(node\)->next;\s*$',
